@@ -10,6 +10,7 @@ package c20
 
 import (
 	"fmt"
+	"math"
 	"reflect"
 	"sort"
 	"strconv"
@@ -44,27 +45,16 @@ type Case struct {
 	Escape  bool    `json:"escape,omitempty"` // EscapePath(): a path written as [..] is one segment
 	Build   string  `json:"build"`            // map | imap | struct | set
 	Layout  string  `json:"layout,omitempty"` // label for the class histogram only
+	// the option list as a sequence (optseq_test.go): earlier occurrences of the explicit options, overridden by them
+	Shadow []OptItem `json:"shadow,omitempty"`
+	Order  int       `json:"order,omitempty"`
 }
 
-func (c Case) opts() []ucfg.Option {
-	var o []ucfg.Option
-	if c.Sep != "" {
-		o = append(o, ucfg.PathSep(c.Sep))
-	}
-	if c.MaxIdx != nil {
-		o = append(o, ucfg.MaxIdx(*c.MaxIdx))
-	}
-	switch c.NumKeys {
-	case "off":
-		o = append(o, ucfg.EnableNumKeys(false))
-	case "on":
-		o = append(o, ucfg.EnableNumKeys(true))
-	}
-	if c.Escape {
-		o = append(o, ucfg.EscapePath())
-	}
-	return o
+func (c Case) items() []OptItem {
+	return assemble(baseItems(c.Sep, c.MaxIdx, c.NumKeys, c.Escape), c.Shadow, c.Order)
 }
+
+func (c Case) opts() []ucfg.Option { return toOptions(c.items()) }
 
 func (c Case) cap() int64 {
 	if c.MaxIdx != nil {
@@ -170,7 +160,7 @@ func spellClass(e Entry, c Case) (cls string, form string, nontrivial bool) {
 	}
 	// DESIGN.md NT: parses as an integer under base-0 rules but is not a plain
 	// decimal in [0, MaxIdx], or lies within +-1 of the cap.
-	nontrivial = !(plainDecimal(e.Spell) && v >= 0 && v <= max) || (v >= max-1 && v <= max+1)
+	nontrivial = !(plainDecimal(e.Spell) && v >= 0 && v <= max) || (v >= max-1 && (max == math.MaxInt64 || v <= max+1))
 	return cls, form, nontrivial
 }
 
@@ -180,6 +170,9 @@ func runCase(c Case, r *runlog.R) error {
 		return nil
 	}
 	max, numKeys, opts := c.cap(), c.NumKeys == "on", c.opts()
+	if err := effectiveCheck(c.items(), c.Sep, c.MaxIdx, c.NumKeys); err != nil {
+		return err
+	}
 
 	// ---- model
 	root := newNode()
@@ -213,12 +206,19 @@ func runCase(c Case, r *runlog.R) error {
 				}
 			}
 		}
+		for _, s := range segs[i] {
+			if s.isIdx && s.idx > materialLimit {
+				r.Class("discarded: index above 5001 under a huge MaxIdx, list not materialised")
+				r.Discard()
+				return nil
+			}
+		}
 		if err := root.insert(segs[i], e.Val); err != nil {
 			r.Discard() // two keys name the same setting or one runs through the other
 			return nil
 		}
 	}
-	if int64(root.longest()) > max+1 {
+	if int64(root.longest()) > capLen(max) {
 		return fmt.Errorf("harness: model produced a list longer than MaxIdx+1")
 	}
 
@@ -269,15 +269,15 @@ func runCase(c Case, r *runlog.R) error {
 	for i := range keys {
 		what[i] = describe(keys[i], segs[i])
 	}
-	expl := strings.Join(what, "; ") + fmt.Sprintf(" (MaxIdx=%d, numeric keys %s, EscapePath %v, sep %q, site %s)", max, c.NumKeys, c.Escape, c.Sep, c.Build)
+	expl := strings.Join(what, "; ") + fmt.Sprintf(" (MaxIdx=%d, numeric keys %s, EscapePath %v, sep %q, site %s, option list %s)", max, c.NumKeys, c.Escape, c.Sep, c.Build, showItems(c.items()))
 	if err != nil {
 		return fmt.Errorf("%s: the keys were not accepted: %v", expl, err)
 	}
 
 	// ---- stored structure
 	snap := ucfg.VerifSnapshot(cfg)
-	if l := longestList(snap); int64(l) > max+1 {
-		return fmt.Errorf("%s: a list with %d entries exists, more than MaxIdx+1 = %d", expl, l, max+1)
+	if l := longestList(snap); int64(l) > capLen(max) {
+		return fmt.Errorf("%s: a list with %d entries exists, more than MaxIdx+1 = %d", expl, l, capLen(max))
 	}
 	want := root.String()
 	if got := fromSnapshot(snap).sub.String(); got != want {
@@ -412,16 +412,8 @@ func runCase(c Case, r *runlog.R) error {
 	for _, k := range keys {
 		r.ClassIf(c.Escape && escapedPath.MatchString(k), "escapepath: a key escaped with brackets (one segment)")
 	}
-	switch {
-	case c.MaxIdx == nil:
-		r.Class("maxidx: default")
-	case max <= 1:
-		r.Class("maxidx: " + strconv.FormatInt(max, 10))
-	case max <= 64:
-		r.Class("maxidx: 2..64")
-	default:
-		r.Class("maxidx: >64")
-	}
+	r.Class(capClass(c.MaxIdx))
+	seqClasses(r, baseItems(c.Sep, c.MaxIdx, c.NumKeys, c.Escape), c.Shadow, c.Order)
 	if c.Sep != "" && c.Sep != "." {
 		r.Class("sep: unusual")
 	}
@@ -529,10 +521,59 @@ func gridMaxIdx() []*int64 {
 	return caps
 }
 
+// gridCaps: the caps of the grid sub-check: the small ones plus the boundary
+// values of the MaxIdx parameter (spellings above 5001 that such a cap turns
+// into indices are discarded: the list is not materialised).
+func gridCaps() []*int64 {
+	return append(gridMaxIdx(), i64(math.MaxInt32), i64(math.MaxInt64-1), i64(math.MaxInt64))
+}
+
+// seqVariants: the option-list variants of one grid combination: every
+// explicit option once more in front, with another value, overridden.
+func seqVariants(c Case) []Case {
+	var out []Case
+	add := func(sh []OptItem, order int) {
+		v := c
+		v.Shadow, v.Order = sh, order
+		out = append(out, v)
+	}
+	var all []OptItem
+	if c.NumKeys != "unset" {
+		sh := []OptItem{{K: "numkeys", B: c.NumKeys != "on"}}
+		add(sh, 0)
+		all = append(all, sh...)
+	}
+	if c.MaxIdx != nil {
+		other := int64(0)
+		switch {
+		case *c.MaxIdx == 0:
+			other = 2000
+		case *c.MaxIdx == 7:
+			other = math.MaxInt64
+		case *c.MaxIdx == math.MaxInt64:
+			other = 7
+		}
+		sh := []OptItem{{K: "maxidx", N: other}}
+		add(sh, 2)
+		all = append(all, sh...)
+	}
+	if c.Sep != "" {
+		sh := []OptItem{{K: "sep", S: "/"}}
+		add(sh, 0)
+		all = append(all, sh...)
+	}
+	if len(all) > 1 {
+		add(all, 1)
+		add(all, 3)
+	}
+	return out
+}
+
 func enumGrid(yield func(Case) bool) {
+	n := 0
 	for _, sp := range gridSpellings {
 		for _, lay := range gridLayouts {
-			for _, mi := range gridMaxIdx() {
+			for _, mi := range gridCaps() {
 				for _, nk := range []string{"unset", "off", "on"} {
 					for _, build := range []string{"map", "struct", "set", "map+escape", "struct+escape", "set+escape"} {
 						esc := strings.HasSuffix(build, "+escape")
@@ -551,6 +592,21 @@ func enumGrid(yield func(Case) bool) {
 						if !yield(c) {
 							return
 						}
+						// the option list as a sequence: thorough tier every variant, quick tier one (rotating)
+						vs := seqVariants(c)
+						if !runlog.Thorough() && len(vs) > 0 {
+							if esc || build == "struct" && n%3 != 0 {
+								n++
+								continue
+							}
+							n++
+							vs = vs[n%len(vs) : n%len(vs)+1]
+						}
+						for _, v := range vs {
+							if !yield(v) {
+								return
+							}
+						}
 					}
 				}
 			}
@@ -560,7 +616,7 @@ func enumGrid(yield func(Case) bool) {
 
 var subGrid = runlog.Register(&runlog.Sub[Case]{
 	Name: "grid",
-	Rule: fmt.Sprintf("full product of %d key spellings (decimal, signs, -0, 0x/0X, 0o, 0b, leading zeros, underscores, cap-1/cap/cap+1 of every MaxIdx of the grid in several bases, +-2^63 neighbours, blanks, 1.0, 1e1, empty, non-ASCII digits, plain names) x 9 layouts (sole key / one of several keys with and without PathSep, first / middle / last dotted segment, with and without named siblings in the same node) x MaxIdx {not given, 0, 1, 7, 2000; thorough tier also 5000} x EnableNumKeys {not given, false, true} x write site {NewFrom(map), NewFrom(struct with the key as tag name), SetString by name} x EscapePath {not given, given (quick tier: given only at the map site with MaxIdx not given or 7)}; every built config is read back through Unpack (map, list, struct with the same tag names), String, Has and Remove by name under the same options. Oracle: own base-0 literal reader + classification (index iff literal, 0<=v<=MaxIdx, numeric keys not enabled for a single-segment key; under EscapePath a key written as [..] is one segment, otherwise EscapePath changes nothing) => expected stored tree, compared with the stored tree (verif hook), IsDict/IsArray/CountField/GetFields, Unpack and getters; no list longer than MaxIdx+1. Non-trivial: the spelling parses as an integer under base-0 rules and is not a plain decimal inside [0,MaxIdx], or lies within 1 of the cap. Discarded: struct site with an empty key or a comma, setter with an empty name, spellings equal to a sibling. Negative MaxIdx is not documented and not generated.", len(gridSpellings)),
+	Rule: fmt.Sprintf("full product of %d key spellings (decimal, signs, -0, 0x/0X, 0o, 0b, leading zeros, underscores, cap-1/cap/cap+1 of every MaxIdx of the grid in several bases, +-2^63 neighbours, blanks, 1.0, 1e1, empty, non-ASCII digits, plain names) x 9 layouts (sole key / one of several keys with and without PathSep, first / middle / last dotted segment, with and without named siblings in the same node) x MaxIdx {not given, 0, 1, 7, 2000, MaxInt32, MaxInt64-1, MaxInt64; thorough tier also 5000} x EnableNumKeys {not given, false, true} x write site {NewFrom(map), NewFrom(struct with the key as tag name), SetString by name} x EscapePath {not given, given (quick tier: given only at the map site with MaxIdx not given or 7)} x option-list variant {every option once; EnableNumKeys(opposite value) earlier in the list; MaxIdx(another value: 0, 7, 2000 or MaxInt64) directly before the effective one; PathSep(/) earlier; all of these together in front of the explicit options in reverse order / each directly before its override - the LAST occurrence of an option counts; thorough tier: all applicable variants, quick tier: one rotating variant per combination (struct site every third, none with EscapePath)}; every built config is read back through Unpack (map, list, struct with the same tag names), String, Has and Remove by name under the same options. Oracle: own base-0 literal reader + classification (index iff literal, 0<=v<=MaxIdx, numeric keys not enabled for a single-segment key; under EscapePath a key written as [..] is one segment, otherwise EscapePath changes nothing) => expected stored tree, compared with the stored tree (verif hook), IsDict/IsArray/CountField/GetFields, Unpack and getters; no list longer than MaxIdx+1. Non-trivial: the spelling parses as an integer under base-0 rules and is not a plain decimal inside [0,MaxIdx], or lies within 1 of the cap. Discarded: struct site with an empty key or a comma, setter with an empty name, spellings equal to a sibling, spellings that a huge MaxIdx turns into an index above 5001 (the list is not materialised). Negative MaxIdx is not documented and not generated.", len(gridSpellings)),
 	Enum: enumGrid,
 	Run:  runCase,
 })
@@ -636,7 +692,7 @@ func runIdx(c IdxCase, r *runlog.R) error {
 		return fmt.Errorf("Set(%q, %d) with MaxIdx=%d: %v", c.Name, c.Idx, max, err)
 	}
 	r.NonTrivialIf(int64(c.Idx) >= max-1)
-	if l := longestList(ucfg.VerifSnapshot(cfg)); int64(l) > max+1 {
+	if l := longestList(ucfg.VerifSnapshot(cfg)); int64(l) > capLen(max) {
 		return fmt.Errorf("Set(%q, idx=%d) with MaxIdx=%d (error: %v) left a list of %d entries, more than MaxIdx+1", c.Name, c.Idx, max, err, l)
 	}
 	if err != nil {
